@@ -160,17 +160,18 @@ def _run_alpha(args):
     import collections
 
     from .driver import analyse
-    from .metamorph import alpha_rename_tree, extract_returns_tree, insert_noop_tree, param_rename_tree
+    from .metamorph import alpha_rename_tree, extract_returns_tree, insert_noop_tree, invert_ifs_tree, param_rename_tree
 
     prop, repo_root, which = args
     name = {"alpha": "twin: every local variable renamed, package re-emitted without comments (metamorphic)",
             "noop": "twin: a new local at the top of every function and an unused helper in every module (metamorphic)",
             "ret": "twin: every returned expression first bound to a local (extract-variable, metamorphic)",
-            "param": "twin: positional parameters of every private and nested function renamed (metamorphic)"}[which]
+            "param": "twin: positional parameters of every private and nested function renamed (metamorphic)",
+            "inv": "twin: the arms of every plain if/else swapped and the test negated (metamorphic)"}[which]
     tmp = tempfile.mkdtemp(prefix="irpy-sa-")
     try:
         _copy_tree(repo_root, tmp)
-        stats = {"alpha": alpha_rename_tree, "noop": insert_noop_tree, "ret": extract_returns_tree, "param": param_rename_tree}[which](tmp)
+        stats = {"alpha": alpha_rename_tree, "noop": insert_noop_tree, "ret": extract_returns_tree, "param": param_rename_tree, "inv": invert_ifs_tree}[which](tmp)
         try:
             a, _ = analyse(prop, repo_root, "quick")
             b, _ = analyse(prop, tmp, "quick")
@@ -197,7 +198,7 @@ def run(prop: str, repo_root: str) -> dict:
     base = _findings(prop, repo_root)
     jobs = [(prop, repo_root, i, base) for i in range(len(vs))]
     with multiprocessing.Pool(min(16, len(jobs) + 3)) as pool:
-        twins = [pool.apply_async(_run_alpha, ((prop, repo_root, w),)) for w in ("alpha", "noop", "ret", "param")]
+        twins = [pool.apply_async(_run_alpha, ((prop, repo_root, w),)) for w in ("alpha", "noop", "ret", "param", "inv")]
         results = pool.map(_run_one, jobs)
         results += [t.get() for t in twins]
     summary = {"variants": len(results), "results": [{"name": n, "verdict": s, "detail": d} for n, s, d in results]}
